@@ -334,7 +334,7 @@ func c16(c *core.Ctx) {
 		c.Count("hits_before_late_measurements", 7*400000)
 		if (lateMin > time.Millisecond && lateMin > 100*earlyMin) || (lateMedian > time.Millisecond && lateMedian > 100*earlyMedian) {
 			c.Violate("time-grows-with-history", "time-grows-with-history", map[string]interface{}{
-				"problem": "parsing a fresh 30-byte URI after a long run of parses of 100 other URIs: minimum over 7 repetitions of the slowest of 400 fresh parses after 400000 hits, and median of 301 parses, against the same before the history",
+				"problem":                 "parsing a fresh 30-byte URI after a long run of parses of 100 other URIs: minimum over 7 repetitions of the slowest of 400 fresh parses after 400000 hits, and median of 301 parses, against the same before the history",
 				"first_after_hits_min_ns": lateMin.Nanoseconds(), "min_before_ns": earlyMin.Nanoseconds(), "median_after_ns": lateMedian.Nanoseconds(), "median_before_ns": earlyMedian.Nanoseconds()})
 		}
 	})
